@@ -186,8 +186,15 @@ func (e *Engine) verifyFuncAspect(blk *Block, prop, aspect string) (fv *FuncVer,
 	if aspect == "" {
 		for _, kind := range []string{"aftercall", "assumeafter"} {
 			for _, cl := range blk.ClausesOf(kind) {
-				if !fv.hookFired[cl] {
-					panic(specError(fmt.Sprintf("%s %s: no call of that name is made on any explored path", kind, cl.Target)))
+				// an obligation of its own (registered on every run), so that the function's other
+				// obligations are still generated and a change that removes the call is reported
+				// with its semantic consequences, not only as a contract that no longer fits
+				text := fmt.Sprintf("%s %s: a call of that name is made on some explored path", kind, cl.Target)
+				hst := &State{cells: map[cellKey]Val{}, heaps: map[string]*Term{}, globals: map[string]*Term{}, pcSet: map[string]bool{}}
+				if fv.hookFired[cl] {
+					fv.oblige(hst, "hook", kind+" "+cl.Target, token.NoPos, True, text)
+				} else {
+					fv.oblige(hst, "hook", kind+" "+cl.Target, token.NoPos, False, text)
 				}
 			}
 		}
